@@ -248,6 +248,13 @@ def run(ctx, chk):
             ok = calls == [want]
         chk.require(ok, "C11-e/raw-identity", "Custom::" + nm, "raw payload %s is not the identity copy" % nm, want.rsplit("::", 1)[-1],
                     cb[0].sp() if cb else None)
+    # the raw block travels in the hand-written Tlv framing of `Vec<u8>` (tag 1C): tag || Tlv::serialize(len) || bytes, decided
+    # by the C01-d frame clauses on that impl (a length prefix written by hand is refused there)
+    import rules_c01
+    from report import Sub
+    sub1 = Sub(chk, "C11-e", lambda r: r.startswith("C01-d/"), instance_filter=lambda i: "feig::packets::tlv" in str(i))
+    rules_c01._run_own(ctx, sub1)
+    chk.floor("raw payload framing obligations (shared with C01-d)", sub1.count, 3)
     chk.floor("C11 obligations", len(chk.obligations), 14)
 
 
